@@ -356,3 +356,98 @@ def h_dispatch_pytree(c):
     out = g(**kw)
     return {"u": arr_wire(np.asarray(out["u"])), "v0": arr_wire(np.asarray(out["v"][0])),
             "v1": arr_wire(np.asarray(out["v"][1]))}
+
+
+# ---- end-to-end: whole models ---------------------------------------------------------
+_MODEL_CACHE = {}
+
+
+def _build_model(c):
+    src = c["py"]
+    if src not in _MODEL_CACHE:
+        ns = {}
+        exec(compile(src, "<generated model>", "exec"), ns)  # noqa: S102
+        _MODEL_CACHE.clear()
+        _MODEL_CACHE[src] = ns["MODEL"]
+    return _MODEL_CACHE[src]
+
+
+def _build_params(c, template, leaf="jax"):
+    p = c["params"]
+    conv = {"jax": lambda x: jnp.asarray(x), "float": float, "numpy": lambda x: np.float64(x)}[leaf]
+    out = {"beta": conv(fq(p["beta"]))}
+    fpar = {fn: {pn: fq(v) for pn, v in ps} for fn, ps in p["fpar"]}
+    for k, v in template.items():
+        if k in ("beta", "shocks"):
+            continue
+        out[k] = {pn: conv(fpar.get(k, {}).get(pn, 0.0)) for pn in v}
+    if "shocks" in template:
+        sh = {s: wire_arr(a) for s, a in p["shocks"]}
+        out["shocks"] = {s: jnp.asarray(sh[s]) for s in template["shocks"]}
+    return out
+
+
+def _val_wire_arr(a):
+    a = np.asarray(a, dtype=float)
+    return {"shape": list(a.shape), "data": [None if math.isnan(v) else to_wire(v) for v in a.reshape(-1).tolist()]}
+
+
+def h_solve_spec(c):
+    """solve the generated model with the real lcm; -> list of value arrays (nan -> null)"""
+    from lcm.entry_point import get_lcm_function
+    model = _build_model(c)
+    solve, template = get_lcm_function(model, targets="solve", jit=c.get("jit", True))
+    params = _build_params(c, template, c.get("leaf", "jax"))
+    sol = solve(params)
+    out = [_val_wire_arr(v) for v in sol]
+    if c.get("template"):
+        return {"solution": out, "template": _template_wire(template)}
+    return out
+
+
+def _template_wire(template):
+    t = {}
+    for k, v in template.items():
+        if k == "shocks":
+            t[k] = {s: list(np.asarray(a).shape) for s, a in v.items()}
+        elif isinstance(v, dict):
+            t[k] = list(v.keys())
+        else:
+            t[k] = None
+    return {"keys": list(template.keys()), "entries": t}
+
+
+def h_simulate(c):
+    """solve_and_simulate (or simulate with solved arrays); -> panel as dict of columns"""
+    from lcm.entry_point import get_lcm_function
+    model = _build_model(c)
+    target = c.get("target", "solve_and_simulate")
+    jit = c.get("jit", True)
+    init = {k: jnp.asarray([fq(x) for x in v], dtype=float) for k, v in c["initial_states"]}
+    kwargs = {"initial_states": init}
+    if "seed" in c:
+        kwargs["seed"] = c["seed"]
+    if c.get("additional_targets"):
+        kwargs["additional_targets"] = c["additional_targets"]
+    if target == "solve_and_simulate":
+        f, template = get_lcm_function(model, targets="solve_and_simulate", jit=jit)
+        params = _build_params(c, template)
+        df = f(params, **kwargs)
+        sol = None
+    else:
+        solve, template = get_lcm_function(model, targets="solve", jit=jit)
+        params = _build_params(c, template)
+        sol = solve(params)
+        sim, _ = get_lcm_function(model, targets="simulate", jit=jit)
+        df = sim(params, vf_arr_list=sol, **kwargs)
+    out = {"columns": {}, "index": [list(map(int, ix)) for ix in df.index.tolist()],
+           "index_names": list(df.index.names), "n_rows": int(len(df))}
+    for col in df.columns:
+        vals = np.asarray(df[col], dtype=float)
+        out["columns"][col] = [None if math.isnan(x) else to_wire(x) for x in vals.tolist()]
+    if c.get("with_solution"):
+        if sol is None:
+            solve, _ = get_lcm_function(model, targets="solve", jit=jit)
+            sol = solve(params)
+        out["solution"] = [_val_wire_arr(v) for v in sol]
+    return out
